@@ -1,9 +1,16 @@
 """C13 - the unit tree stays consistent under every edit of a sequence.
 
-Tie: K (hand-written model lean/PyrollModel/Tree.lean, theorems lean/PyrollProps/C13.lean).
-The harness drives real PassSequence / Unit / RollPass / Transport objects and the Lean model with the same
-operation lines and compares the complete parent/children state after every operation; the independent
-oracle walks every unit ever created and checks the property as stated.
+Tie: T + K.
+T: driver/translate/c13_listops.py re-reads, on every run, `Unit._SubUnitsList` (every overridden mutator), `Unit.parent /
+prev / next / prev_of / next_of`, `PassSequence.__init__ / prepend / append / drop / flatten / units / roll_passes /
+transports / __getitem__ / __len__ / __iter__` and the two `__deepcopy__` methods and writes them as programs over a small
+instruction set to lean/PyrollModel/Gen/C13.lean; lean/PyrollProps/C13.lean proves that running each program
+(lean/PyrollModel/TreeProg.lean) equals the hand-written model (`op_program_refines_step`, `prev_program_refines`, ...;
+deep copies and the parent slot are pinned).  A source change either keeps these proofs (nothing observable changed) or
+breaks the build / leaves the translated subset (`ctx.tie_breaks`): broken tie -> extended search for a failing input.
+K: the harness drives real PassSequence / Unit / RollPass / Transport objects and the Lean model
+(lean/PyrollModel/Tree.lean) with the same operation lines and compares the complete parent/children state after every
+operation; the independent oracle walks every unit ever created and checks the property as stated.
 """
 import copy
 import itertools
@@ -25,10 +32,15 @@ RULE = ("random edit histories over a pool of real units (plain Unit, TwoRollPas
         "objects (re-iterable), generator, iter(), map, reversed, itertools.chain (one-shot) and - for re-insertions - a "
         "generator that reads the edited list lazily; after every op the content of the edited list is compared with "
         "what the same op does to a plain python list.")
+TRUSTED_EXTRA = ["AST pattern matcher for the list / sequence methods (driver/translate/c13_listops.py) and the meaning given to "
+                 "its instructions (lean/PyrollModel/TreeProg.lean: python list primitives as modelled); its output is consumed "
+                 "by the `*_program_refines*` theorems and the model they tie it to is run against the real objects (K)"]
 ASSUMPTIONS = [
     "CPython list primitive methods, weakref and copy.deepcopy memo semantics are modelled, not verified",
     "the iterator protocol is modelled by Tree.Src (one-shot iterables yield their items during the first iteration only)",
-    "the model is tied to the code by sampled differential runs (state compared after every op)",
+    "the model is tied to the code by sampled differential runs (state compared after every op) and, statement by "
+    "statement, by the programs translated from the source (refinement theorems); `copy.deepcopy` (memo protocol) and the "
+    "weak parent slot are pinned, not run",
 ]
 
 KINDS = {0: "Unit", 1: "TwoRollPass", 2: "Transport", 3: "PassSequence"}
@@ -951,6 +963,16 @@ CORPUS = [
     # F10: l[0], l[1] = l[1], l[0] - the first item assignment lists u1 twice, the second one orphans it
     [("unit", 0, 0), ("unit", 0, 1), ("seq", 0, [0, 1]), ("setitem", 2, 0, 1), ("setitem", 2, 1, 0)],
 ]
+
+
+def translate(ctx):
+    """(T) regenerate lean/PyrollModel/Gen/C13.lean from the working tree; statements outside the subset -> tie_breaks"""
+    from driver import core
+    from driver.translate import c13_listops
+    try:
+        c13_listops.emit(ctx, core.REPO, core.LEAN_DIR)
+    except c13_listops.Gap as e:       # a class is missing altogether
+        ctx.tie_breaks.append(f"c13_listops: {e}")
 
 
 def run_history(ctx, ops, lean_lines, meta):
